@@ -9,9 +9,20 @@
    by the codec, its length fits the effective MaxSize and the allocator limit
    (2^48 on linux/amd64; implied by the default MaxSize). *)
 From Coq Require Import List NArith ZArith Lia.
-From PB Require Import Base.PBytes Wire.WireModel Msg.DelimModel Msg.DelimP.
+From PB Require Import Base.PBytes Wire.WireModel Msg.DelimModel Msg.DelimP Gen.DelimConsts.
 Import ListNotations.
 Open Scope N_scope.
+
+(* Tier T: the constants of the model are the ones extracted from protodelim.go
+   (defaultMaxSize, len(sizeArr), the MaxSize value that disables the limit and its bound) *)
+Theorem C27_constants_match_source :
+  default_max_size = DelimConsts.defaultMaxSize /\
+  N.of_nat size_arr_len = DelimConsts.sizeArrLen /\
+  max_int = DelimConsts.unlimitedBound /\
+  effective_max DelimConsts.unlimitedMaxSize = DelimConsts.unlimitedBound /\
+  effective_max 0 = DelimConsts.defaultMaxSize.
+Proof. exact delim_consts_ok. Qed.
+Print Assumptions C27_constants_match_source.
 
 (* every list of bodies, every reader behaviour: the bodies come back in order, then io.EOF *)
 Theorem C27_delim_roundtrip :
@@ -64,7 +75,7 @@ Print Assumptions C27_delim_truncation_refuted_F15.
 Theorem C27_delim_too_large :
   forall body_ok terr o max s sz m,
   fst (unmarshal_from body_ok terr o max s) = DTooLarge sz m <->
-  exists buf r rest, read_size terr 10 true [] s = RSBuf buf r /\ dec_varint buf = Ok (sz, rest) /\
+  exists buf r rest, read_size terr size_arr_len true [] s = RSBuf buf r /\ dec_varint buf = Ok (sz, rest) /\
                      m = effective_max max /\ m < sz.
 Proof. exact too_large_iff. Qed.
 Print Assumptions C27_delim_too_large.
